@@ -21,7 +21,11 @@ impl Extendable<2> for GoldilocksField {
     // DTH_ROOT = W^((ORDER - 1)/2)
     const DTH_ROOT: Self = Self(18446744069414584320);
 
-    const EXT_MULTIPLICATIVE_GROUP_GENERATOR: [Self; 2] = [Self(0), Self(11713931119993638672)];
+    // A generator of the whole multiplicative group (order p^2 - 1 = 2^33 * 3 * 5 * 7 * 17 * 179 * 257 *
+    // 65537 * 7361031152998637), chosen such that `g^((p^2 - 1) >> 33) = EXT_POWER_OF_TWO_GENERATOR`.
+    // Note that no element of the form `c * X` can generate the group: its square lies in the base field.
+    const EXT_MULTIPLICATIVE_GROUP_GENERATOR: [Self; 2] =
+        [Self(12293275819268896335), Self(13434405346334488219)];
 
     const EXT_POWER_OF_TWO_GENERATOR: [Self; 2] = [Self(0), Self(7226896044987257365)];
 }
@@ -44,8 +48,15 @@ impl Extendable<4> for GoldilocksField {
     // DTH_ROOT = W^((ORDER - 1)/4)
     const DTH_ROOT: Self = Self(281474976710656);
 
-    const EXT_MULTIPLICATIVE_GROUP_GENERATOR: [Self; 4] =
-        [Self(0), Self(8295451483910296135), Self(0), Self(0)];
+    // A generator of the whole multiplicative group (order p^4 - 1; p^2 + 1 = 2 * 13 * 37 * 113 * 1429 *
+    // 274177 * 118750098349 * 67280421310721), chosen such that
+    // `g^((p^4 - 1) >> 34) = EXT_POWER_OF_TWO_GENERATOR`.
+    const EXT_MULTIPLICATIVE_GROUP_GENERATOR: [Self; 4] = [
+        Self(15782968752018603441),
+        Self(10977217239298669230),
+        Self(10472822098377115423),
+        Self(10458942733866840776),
+    ];
 
     const EXT_POWER_OF_TWO_GENERATOR: [Self; 4] =
         [Self(0), Self(0), Self(0), Self(17216955519093520442)];
